@@ -447,7 +447,12 @@ theorem applyAct_okErr_makeMut (r : Nat) : (applyAct s fh fw (.makeMut r)).okErr
     have hval : s.valOf o = some v := by rw [valOf_of_cell hc, hv]
     simp only [hc, hv]
     split
-    · refine okErr_of_err_eq (s := s.cloneHandles v) rfl ?_
+    · by_cases hsh : v.shallow = true
+      · -- a shallow `Clone` copies no handle: no counter is touched
+        simp only [hsh, if_true]
+        exact okErr_of_err_eq (s := s) rfl (okErr_of_none h.err)
+      simp only [hsh]
+      refine okErr_of_err_eq (s := s.cloneHandles v) rfl ?_
       refine okErr_cloneHandles (okErr_of_none h.err) ?_ ?_
       · intro x hx
         exact isLive_cell_isSome (h.live_of_held hval hx)
@@ -540,6 +545,13 @@ theorem applyAct_noerr_setPanic (q : Nat) : (applyAct s fh fw (.setPanic q)).err
   | some o =>
     exact (modVal_err_eq_none_iff _ _ _).mpr ⟨h.err, h.valOf_of_live (h.live_of_root hr)⟩
 
+theorem applyAct_noerr_setShallow (q : Nat) : (applyAct s fh fw (.setShallow q)).err = none := by
+  simp only [applyAct, h.useRoot_eq, h.badRoot_eq]
+  cases hr : nthMod s.roots q with
+  | none => exact h.err
+  | some o =>
+    exact (modVal_err_eq_none_iff _ _ _).mpr ⟨h.err, h.valOf_of_live (h.live_of_root hr)⟩
+
 theorem applyAct_noerr_upgradeField (k : Nat) (hw : ∀ o ∈ fw, (s.cell o).isSome = true) :
     (applyAct s fh fw (.upgradeField k)).err = none := by
   simp only [applyAct]
@@ -599,6 +611,7 @@ theorem applyAct_okErr (s : State) (fh fw : List Nat) (a : Act) (hI : s.Inv) (hR
   | counts r => exact okErr_of_none (applyAct_noerr_counts h fh fw r)
   | wcounts w => exact okErr_of_none (applyAct_noerr_wcounts h fh fw w)
   | setPanic q => exact okErr_of_none (applyAct_noerr_setPanic h fh fw q)
+  | setShallow q => exact okErr_of_none (applyAct_noerr_setShallow h fh fw q)
   | upgradeField k => exact okErr_of_none (applyAct_noerr_upgradeField h fh fw k hw)
   | cloneField k => exact applyAct_okErr_cloneField h fh fw k hf
 
@@ -845,7 +858,7 @@ theorem applyAct_ext (s : State) (fh fw : List Nat) (a : Act) : s.Ext (applyAct 
     · split
       · split
         · split
-          · exact (Ext.of_eq (by simp)).push _ (by simp [Frame.isScript])
+          · exact (Ext.of_eq (by simp; split <;> simp)).push _ (by simp [Frame.isScript])
           · split
             · exact Ext.of_eq (by simp)
             · exact Ext.of_eq (by simp)
